@@ -320,11 +320,18 @@ def load_known():
     d = os.path.join(VERIF, "known_findings.d")
     if os.path.isdir(d):
         paths += sorted(os.path.join(d, f) for f in os.listdir(d) if f.endswith(".json"))
+    seen = set()
     for p in paths:
         if os.path.exists(p):
             j = json.load(open(p))
-            out["findings"] += j.get("findings", [])
-            out["fixed"] += j.get("fixed", [])
+            for f in j.get("findings", []):
+                k = (f.get("property"), f.get("id"))
+                if k not in seen:
+                    seen.add(k)
+                    out["findings"].append(f)
+            for x in j.get("fixed", []):
+                if x not in out["fixed"]:
+                    out["fixed"].append(x)
     return out
 
 
